@@ -646,7 +646,7 @@ theorem reduceResult_ofCVal (v : Comb.CVal) : reduceResult (ofCVal v) = liftN (C
 theorem runTree_embedC (e : Comb.CExp) (env : Env) (hm : combModelled e = true) :
     runTree env (.stmts [embedC e]) = (env, numOutcome (Comb.evalTop e)) := by
   have hi : hasInstant (.stmts [embedC e]) = false := by simp [hasInstant, hasInstantL, hasInstant_embedC]
-  simp only [runTree, hi, runProgram, runStmts, evalStmt_expr env _ (embedC_not_assign e), evalE_embedC e env hm,
+  simp only [runTree, checkInstants_of_noInstant _ hi, runProgram, runStmts, evalStmt_expr env _ (embedC_not_assign e), evalE_embedC e env hm,
     Comb.evalTop]
   cases Comb.evalC e with
   | error er => rfl
@@ -1219,8 +1219,25 @@ def lexClass : Lexer.LexErr → String
   | .unclosedString _ => "UnclosedStringError" | .unclosedInstant _ => "UnclosedInstantError"
   | .outOfFuel => "(model bound)"
 
-/-- evaluation and display of a parse tree as stages of `Exec.execute` -/
+/-- what `instant_from_iso`, run by the parser on the instant literals it reads, can answer: nothing,
+    a form outside the ISO model, or the KaRuntimeError of a malformed literal -/
+theorem checkInstants_cases (texts : List String) :
+    checkInstants texts = none ∨ checkInstants texts = some (.unmodelled "instant form") ∨
+      checkInstants texts = some (.evalErr .runtime) := by
+  unfold checkInstants
+  split
+  · exact Or.inr (Or.inl rfl)
+  · split
+    · exact Or.inr (Or.inr rfl)
+    · exact Or.inl rfl
+
+/-- evaluation and display of a parse tree as stages of `Exec.execute`; a malformed instant literal is
+    raised by `parse_tokens` (the parse stage), before anything is evaluated -/
 def treeStages (env : Env) (t : Ast) : Exec.Stages :=
+  match checkInstants (instTexts t) with
+  | some (.evalErr e) => ⟨none, some (errClass e), none, none⟩
+  | some _ => ⟨none, none, none, none⟩
+  | none =>
   match runProgram env t with
   | (_, .error (.err e)) => ⟨none, none, some (errClass e), none⟩
   | (_, .error _) => ⟨none, none, none, none⟩
@@ -1235,7 +1252,11 @@ def stagesOf (env : Env) (s : List Char) : Exec.Stages :=
   | .error e => ⟨some (lexClass e), none, none, none⟩
   | .ok toks =>
     match parse toks with
-    | .error (.parsing _) => ⟨none, some "ParsingError", none, none⟩
+    | .error (.parsing i) =>
+      match checkInstants (tokInstTexts (toks.take i)) with
+      | some (.evalErr e) => ⟨none, some (errClass e), none, none⟩
+      | some _ => ⟨none, none, none, none⟩
+      | none => ⟨none, some "ParsingError", none, none⟩
     | .error .overflow => ⟨none, some "OverflowError", none, none⟩
     | .error .fuel => ⟨none, none, none, none⟩
     | .ok t => treeStages env t
@@ -1248,13 +1269,15 @@ def observe : Outcome → Option Exec.Outcome
   | .unmodelled _ => none
 
 open Gen.Exec in
-/-- **Table fact** (handler tables generated from the `ast` of interpret.py): the four lexical classes and
-    ParsingError are caught with status 1, OverflowError out of the parser is not caught, the own classes
+/-- **Table fact** (handler tables generated from the `ast` of interpret.py): the four lexical classes,
+    ParsingError and the KaRuntimeError of a malformed instant literal (raised by `parse_tokens`) are caught
+    with status 1, OverflowError out of the parser is not caught, the own classes
     are caught around evaluation (after `eval_parse_tree`'s conversion). -/
 theorem handler_table :
     (∀ c ∈ ["UnknownTokenError", "BadNumberError", "UnclosedStringError", "UnclosedInstantError"],
       Exec.handle lexCaught c = .done 1 false true) ∧
     Exec.handle parseCaught "ParsingError" = .done 1 false true ∧
+    Exec.handle parseCaught "KaRuntimeError" = .done 1 false true ∧
     Exec.handle parseCaught "OverflowError" = .escaped "OverflowError" ∧
     (∀ c ∈ ownClasses, Exec.handle evalCaught (Exec.convert evalConverted c) = .done 1 false true) := by
   decide +kernel
